@@ -610,10 +610,12 @@ def gen_nested(rng):
         if rng.random() < 0.6:
             ops.append(("nst", rng.choice([1, 2, 2, 3]), rng.randint(1, 4)))
         ops.append(("snd", 0, "in"))
-        if rng.random() < 0.3:
-            ops.append(("nst", rng.choice([1, 2, 2, 3]), rng.randint(1, 4)))
+        if rng.random() < 0.5:
+            # after the send: a message of the enclosing simulation may be in flight while the nested one runs;
+            # nsp: the nested model panics and the handler handles the error
+            ops.append((rng.choice(["nst", "nsp", "nsp"]), rng.choice([1, 1, 2, 3]), rng.randint(1, 4)))
         conns = [("all", 0, ("s", 0))]
-        if i + 1 < n and rng.random() < 0.4:
+        if i + 1 < n and rng.random() < 0.6:
             conns.append(("all", 1000, ("m", i + 1, rng.randrange(2))))
         init = [("nst", rng.choice([1, 2]), rng.randint(1, 3))] if rng.random() < 0.2 else []
         models.append({"cap": rng.choice([1, 2, 4]), "handlers": [ops, [("snd", 0, "in")], []], "repliers": [], "outs": [conns],
